@@ -71,6 +71,7 @@ macro_rules! dispatch {
             "C18" => $f(&props::c18::C18 $(, $arg)*),
             "C17" => $f(&props::c17::C17 $(, $arg)*),
             "C16" => $f(&props::c16::C16 $(, $arg)*),
+            "C03" => $f(&props::c03::C03 $(, $arg)*),
             other => {
                 eprintln!("unknown property {}", other);
                 3
